@@ -8,7 +8,10 @@ package main
 // Ops (names hex, times decimal; wall-clock values are multiples of one hour from the
 // case start, so real elapsed time is negligible against every timeout):
 //   nj <name>                 memberlist NotifyJoin
-//   nl <name> <at>            memberlist NotifyLeave; leaveTime := base + at h (hook)
+//   nl <name> <at> [d|l]      memberlist NotifyLeave; leaveTime := base + at h (hook); optional: how memberlist says
+//                             the node went away — d = StateDead (failure detector), l = StateLeft (own leave notice)
+//   s2 <name>                 push/pull to a FRESH real peer that knows <name> as alive: this node's LocalState is fed
+//                             to the peer's MergeRemoteState; prints the peer's view of <name>
 //   nu <name>                 memberlist NotifyUpdate
 //   mj <name> <lt>            NotifyMsg(messageJoin)
 //   ml <name> <lt> <0|1>      NotifyMsg(messageLeave, prune)
@@ -281,18 +284,27 @@ func (ni *nodeInst) exec(o string) string {
 			return "bad-op"
 		}
 		ev.NotifyJoin(mlNode(n))
-	case f[0] == "nl" && len(f) == 3:
+	case f[0] == "nl" && (len(f) == 3 || len(f) == 4):
 		n, ok := parseHexName(f[1])
 		t, err := strconv.ParseUint(f[2], 10, 32)
-		if !ok || err != nil {
+		if !ok || err != nil || (len(f) == 4 && f[3] != "d" && f[3] != "l") {
 			return "bad-op"
+		}
+		mlState := memberlist.StateAlive // zero value, as before
+		if len(f) == 4 {
+			mlState = memberlist.StateDead
+			if f[3] == "l" {
+				mlState = memberlist.StateLeft
+			}
 		}
 		before := map[string]serf.MemberStatus{}
 		for _, m := range ni.s.Members() {
 			before[m.Name] = m.Status
 		}
 		t0 := time.Now()
-		ev.NotifyLeave(mlNode(n))
+		nd := mlNode(n)
+		nd.State = mlState
+		ev.NotifyLeave(nd)
 		t1 := time.Now()
 		// The stamp handleNodeLeave took (time.Now()) is replaced by the explicit one — only when the code
 		// really took a stamp during this call: a leaveTime it kept from earlier stays what it was.
@@ -431,6 +443,26 @@ func (ni *nodeInst) exec(o string) string {
 			}
 		}
 		return fmt.Sprintf("refute2 self=%s joins=%d maxjoin=%d", self, joins, maxJoin)
+	case f[0] == "s2" && len(f) == 2:
+		n, ok := parseHexName(f[1])
+		if !ok {
+			return "bad-op"
+		}
+		peer, perr := newNodeInst()
+		if perr != nil {
+			return "env-error"
+		}
+		defer func() { _ = peer.s.Shutdown() }()
+		peer.conf.MemberlistConfig.Events.NotifyJoin(mlNode(n))
+		peer.conf.MemberlistConfig.Delegate.MergeRemoteState(dg.LocalState(false), false)
+		view := "absent"
+		lts := peer.s.VerifStatusLTimes()
+		for _, m := range peer.s.Members() {
+			if m.Name == n {
+				view = fmt.Sprintf("%s:%d", nodeStatusName(m.Status), lts[n])
+			}
+		}
+		return "peer=" + view
 	case f[0] == "jl" && len(f) == 3:
 		lt, err := strconv.ParseUint(f[1], 10, 64)
 		if err != nil || (f[2] != "0" && f[2] != "1") {
